@@ -102,6 +102,13 @@ def generate(rng, tier):
             step = rng.choice([4096, 8192, 10000])
             evs2 = ["D " + enc(data[q:q + step]) for q in range(0, len(data), step)]
             cases.append(Case("dg.patch", [str(a)] + evs2, meta={"nt": True, "kind": "boundary", "n": len(data)}))
+    # 0-byte reads (not end of file for a line reader in the middle of a line): modelled as the code behaves
+    for evs in (["D " + enc(b"abc"), "D -", "D " + enc(b"def\n")], ["D " + enc(b"l1\nl2"), "D -", "D " + enc(b"\nl3")], ["D " + enc(b"$Net"), "D -", "D " + enc(b"BSD\nx\n")],
+                ["D " + enc(b"abc"), "D -", "X"], ["D " + enc(b"abc\n"), "D -", "D " + enc(b"def\n")], ["D -", "D " + enc(b"abc\n")], ["D " + enc(b"a"), "D -", "D -", "D " + enc(b"b")],
+                ["D " + enc(b"a"), "D -", "I", "D " + enc(b"b\n"), "D -", "D " + enc(b"c")], ["D " + enc(b"keep\n$NetBSD"), "D -", "D " + enc(b"$ x\nz")]):
+        for a in (0, 3):
+            cases.append(Case("dg.patch", [str(a)] + evs, meta={"nt": True, "kind": "zero-read", "n": 0}))
+            cases.append(Case("dg.file", [str(a)] + evs, meta={"nt": True, "kind": "zero-read", "n": 0}))
     for burst in (127, 128, 129, 130, 500):
         cases.append(Case("dg.file", ["2"] + ["I"] * burst + ["D " + enc(b"hello world")] + ["I"] * burst, meta={"nt": True, "kind": "intr-burst", "n": 11}))
         cases.append(Case("dg.patch", ["3"] + ["D " + enc(b"l1\n$Net")] + ["I"] * burst + ["D " + enc(b"BSD$\nl3")], meta={"nt": True, "kind": "intr-burst", "n": 16}))
